@@ -186,7 +186,8 @@ pub fn run_check(prop: &str, tier: &str) -> i32 {
             // (1) deep histories, partition + independent-reader check at every acknowledged flush
             let mut deep = suites::partition_suites(thorough);
             let plan = crashprops::CrashPlan { crash: false, layout_tag: "C05", nest: 0, reopen_cycles: 0, sector_tear: false, layout: true, probe_auto_ts: false, continue_after: false };
-            crashprops::crash_check(prop, std::mem::take(&mut deep), &["C05"], plan, budget * 0.5, &mut report);
+            // (a key that is lost or unreadable after a clean reopen is damage to stored bytes: the sequential oracle's verdicts count here)
+            crashprops::crash_check(prop, std::mem::take(&mut deep), &["C05", "C01"], plan, budget * 0.5, &mut report);
             // (2) the same invariants on every store recovered from a crash image
             let s = suites::crash_suites(thorough);
             let plan = crashprops::CrashPlan { crash: true, layout_tag: "C05", nest: 0, reopen_cycles: 0, sector_tear: false, layout: true, probe_auto_ts: false, continue_after: false };
